@@ -160,3 +160,56 @@ pub proof fn lemma_no_ext01_from_ids(p: Map<Seq<u8>, PairInfoRaw>, addr_len: nat
         lemma_key_of_no_ext01(l1, h1, l2, h2, addr_len);
     }
 }
+
+// ---- C19 as one statement: a walk is a sequence of pages, the first from the beginning, each next one continuing after the LAST pair of the
+// previous (non-empty) page, ending with the first empty page.  Every page is what the Pairs query answers (page_ok, proved for query_pairs). ----
+pub open spec fn walk_ok(p: Map<Seq<u8>, PairInfoRaw>, n: nat, pages: Seq<Seq<PairInfo>>) -> bool {
+    pages.len() >= 1 && page_ok(p, None, n, pages[0]) && pages.last().len() == 0
+    && (forall|k: int| 0 <= k < pages.len() - 1 ==> (#[trigger] pages[k]).len() > 0
+        && exists|r0: AssetInfoRaw, r1: AssetInfoRaw| #![trigger raw_of(pages[k].last().asset_infos[0], r0), raw_of(pages[k].last().asset_infos[1], r1)]
+            raw_of(pages[k].last().asset_infos[0], r0) && raw_of(pages[k].last().asset_infos[1], r1) && page_ok(p, cursor_of(r0, r1), n, pages[k + 1]))
+}
+// number of pairs returned by the pages before page k
+pub open spec fn visited_before(pages: Seq<Seq<PairInfo>>, k: int) -> int decreases k { if k <= 0 { 0 } else { visited_before(pages, k - 1) + pages[k - 1].len() } }
+pub proof fn lemma_c19_walk_prefix(p: Map<Seq<u8>, PairInfoRaw>, n: nat, pages: Seq<Seq<PairInfo>>, k: int)
+    requires p.dom().finite(), registry_wf(p), no_ext01(sorted_keys(p)), walk_ok(p, n, pages), 0 <= k < pages.len()
+    ensures ({ let all = sorted_keys(p); let o = visited_before(pages, k);
+        0 <= o <= all.len() && pages[k].len() == page_len(all.len() as int, o, n) && forall|t: int| 0 <= t < pages[k].len() ==> normal_of(p[all[o + t]], #[trigger] pages[k][t]) })
+    decreases k
+{
+    let all = sorted_keys(p);
+    if k == 0 {
+        lemma_c19_first_page(p, n, pages[0]);
+    } else {
+        lemma_c19_walk_prefix(p, n, pages, k - 1);
+        let o1 = visited_before(pages, k - 1);
+        let prev = pages[k - 1];
+        let i = o1 + prev.len();
+        assert(prev.len() > 0);
+        assert(visited_before(pages, k) == i);
+        let last = prev.last();
+        assert(last == prev[prev.len() - 1]);
+        assert(normal_of(p[all[o1 + (prev.len() - 1)]], last));
+        let (r0, r1) = choose|r0: AssetInfoRaw, r1: AssetInfoRaw| #![trigger raw_of(pages[k - 1].last().asset_infos[0], r0), raw_of(pages[k - 1].last().asset_infos[1], r1)]
+            raw_of(pages[k - 1].last().asset_infos[0], r0) && raw_of(pages[k - 1].last().asset_infos[1], r1) && page_ok(p, cursor_of(r0, r1), n, pages[k - 1 + 1]);
+        lemma_c19_next_page(p, i, last, r0, r1, n, pages[k]);
+    }
+}
+// C19: the walk visits every registered pair exactly once, in ascending key order, and then ends
+pub proof fn lemma_c19_walk(p: Map<Seq<u8>, PairInfoRaw>, n: nat, pages: Seq<Seq<PairInfo>>, addr_len: nat)
+    requires p.dom().finite(), registry_wf(p), ids_clean(p, addr_len), n >= 1, walk_ok(p, n, pages)
+    ensures /*[C19 walk.complete-and-duplicate-free]*/ ({ let all = sorted_keys(p);
+        all.no_duplicates() && (forall|key: Seq<u8>| p.dom().contains(key) <==> all.contains(key))
+        && visited_before(pages, pages.len() - 1) == all.len()
+        && (forall|k: int, t: int| 0 <= k < pages.len() && 0 <= t < pages[k].len() ==> 0 <= visited_before(pages, k) + t < all.len() && normal_of(p[all[visited_before(pages, k) + t]], #[trigger] pages[k][t])) })
+{
+    broadcast use axiom_sorted_keys;
+    let all = sorted_keys(p);
+    lemma_sorted_no_dup(all);
+    lemma_no_ext01_from_ids(p, addr_len);
+    let last = pages.len() - 1;
+    lemma_c19_walk_prefix(p, n, pages, last);
+    assert forall|k: int, t: int| 0 <= k < pages.len() && 0 <= t < pages[k].len() implies 0 <= visited_before(pages, k) + t < all.len() && normal_of(p[all[visited_before(pages, k) + t]], #[trigger] pages[k][t]) by {
+        lemma_c19_walk_prefix(p, n, pages, k);
+    }
+}
